@@ -89,6 +89,25 @@ func (neverReady) Rating() float64           { return 0 }
 func (neverReady) Record(int, time.Duration) {}
 func (neverReady) IsReady() bool             { return false }
 
+// flipMeter is always ready and rates every second server it is created for as failing, so
+// the rebalancer really adjusts weights while administration races with requests. It is
+// only ever called under the rebalancer's own mutex.
+type flipMeter struct{ n int }
+
+var flipCount atomic.Int64
+
+func (m *flipMeter) Rating() float64 {
+	if m.n == 0 {
+		m.n = int(flipCount.Add(1))
+	}
+	if m.n%2 == 0 {
+		return 0.9
+	}
+	return 0
+}
+func (m *flipMeter) Record(int, time.Duration) {}
+func (m *flipMeter) IsReady() bool             { return true }
+
 // pool is the common face of RoundRobin and Rebalancer.
 type pool interface {
 	Servers() []*url.URL
@@ -483,7 +502,8 @@ func TestC02_RacingAdmin(t *testing.T) {
 		rr, _ := roundrobin.New(handler)
 		var p pool = rr
 		if useRebalancer {
-			rb, _ := roundrobin.NewRebalancer(rr, roundrobin.RebalancerMeter(func() (roundrobin.Meter, error) { return neverReady{}, nil }))
+			rb, _ := roundrobin.NewRebalancer(rr, roundrobin.RebalancerBackoff(20*time.Microsecond),
+				roundrobin.RebalancerMeter(func() (roundrobin.Meter, error) { return &flipMeter{}, nil }))
 			p = rb
 		}
 		stable, _ := url.Parse("http://stable")
